@@ -3,10 +3,36 @@ from common import LEAN_TB
 CFG = {'lean_modules': ['ObiVerif.Props.C09'],
  'gen': True,
  'thorough_seeds': 8,
- 'rule': 'placeholder',
- 'technique': 'placeholder',
- 'level_text': 'placeholder',
- 'level_note': 'placeholder',
- 'trusted_base': LEAN_TB,
- 'modelled': 'placeholder',
- 'assumptions': []}
+ 'rule': 'cases = samerow x (all 256 bytes x against all 256 bytes y through the kernel on one-base sequences); lcs A B e egf fill: every pair of '
+         'words over {a,c,g,t} of length <= 3 (quick) / <= 4 (thorough, partitioned over the 8 seeds) x bounds -1..4 (endgapfree: -1..2), nil or '
+         'poisoned scratch buffer; lcsall / d1all: one A of length 5 (thorough: every one; quick: a sample) or 6 (sample) against EVERY word of '
+         'length <= 5 / 6, results folded into a checksum, the oracle run on every pair; random pairs to 500 bases, plain or with IUPAC codes '
+         '(rates 1/3, 1/8, 1/20), B an edited copy of A (0..24 edits) or independent, bounds -1, 0..5 and around the number of edits, buffer nil / '
+         'filled with 0, 2^64-1, 2^32, 2^33-1, 2^48-1; every case is also re-run on the real code with a buffer reused across all calls and with the '
+         'arguments exchanged; d1 on close pairs (0..2 edits, runs of equal symbols frequent); non-trivial = distinct well-formed case',
+ 'technique': 'Lean 4 theorems (table lemma by decide over the table regenerated from the source; packed-cell arithmetic on UInt64; inductions on the '
+              'banded matrix and on prefix/suffix stripping) + differential correspondence of two model layers (verbatim loops, structural) with the '
+              'real kernels + naive full-matrix / Levenshtein oracles on the real code',
+ 'level_text': 'Proved for all inputs: iupac_table_is_bitset (the regenerated _iupac table is the IUPAC bit-set table; with the unrepaired value '
+               "_iupac['v']=13 the build fails), samenuc_iff_sets_intersect; cell_order / cell_ops (uint64 comparison of packed cells = lexicographic "
+               '(score, shorter length), out < in, codec round trip, _incpath/_incscore/_setout act field-wise, for scores < 65536 and lengths < 65535 - '
+               'sharpness shown); d1or0_spec (verdict 0 iff equal, 1 iff Levenshtein distance exactly 1 with position and symbols reproducing the edit, '
+               'else (-1,-1,0,0)) and d1or0_symm, for all byte sequences; lcsDP_is_lcs (textbook recurrence = optimum over all alignments, any '
+               'compatibility relation); fastLCS_sound (every answer of the banded kernel, any bound, is the score and length of an actual alignment - '
+               'never spurious; |a|+|b| < 30000 because the sentinel _notavail is the length 30000); fastLCS_exact_partial (exactly (LCS, shortest '
+               'alignment) when no bound is given or when the band covers the matrix). PARTIAL: exactness for a narrow band (band-containment '
+               'argument) is not proved - covered by fastLCS_sound plus the oracle of the correspondence check only; endgapfree=true (FastLCSEGFScore) '
+               'is tied by correspondence and oracle only.',
+ 'level_note': 'Trusted: Lean kernel; the transcriptions in Model/Lcs.lean; the extractor (literals of _iupac). The theorems about D1Or0 and the LCS '
+               'kernel are stated on structural layers (d1F: prefix/suffix stripping; bandLCS: banded matrix by rows with the packed words, band limits, '
+               'sentinels and _setout of the code); the verbatim layers (index loops of D1Or0; two anti-diagonal rows in one buffer with the xs/xf index '
+               'arithmetic of FastLCSEGFScoreByte) are NOT proved equal to them in Lean: both layers are executed on every correspondence case against '
+               'the real code (vm_C09 answers layer-mismatch if they differ) - tie = both layers validated differentially. Independence of the scratch '
+               'buffer content is checked on the real code (nil / poisoned / reused), not proved.',
+ 'trusted_base': LEAN_TB + ['extract/ (go/ast literal extraction of _iupac)', 'naive full-matrix LCS (specified IUPAC compatibility) and Levenshtein oracles in the harness'],
+ 'modelled': 'pkg/obialign fastlcsegf.go (_iupac, _samenuc, FastLCSEGFScoreByte, FastLCSScore, FastLCSEGFScore), fastlcs.go (encodeValues, decodeValues, '
+             '_incpath, _incscore, _setout, _empty/_out/_notavail), is_d0_or_d1.go (D1Or0)',
+ 'assumptions': ['|a| + |b| < 30000 for the LCS theorems (sentinel length 30000; 16-bit score/length fields)',
+                 'symbols outside the IUPAC alphabet: the property does not say what matches; the model follows the code (letters that are not IUPAC '
+                 'codes match nothing, not even themselves; other bytes match iff equal) and the oracle is silent on them',
+                 'D1Or0 is given the stored (lower-cased) sequences of the BioSequence objects']}
